@@ -21,29 +21,37 @@ from ..oracles import ctf_sets as S
 from ..oracles import ctf_fscm as F
 
 PROP = "C19"
-RULE = ("random ADMGs (1-6 nodes, acyclic; isolated and bidirected-only nodes) x counterfactual variables with 0-3 "
-        "subscripts drawn from ancestors, non-ancestors, the variable itself and (rarely) both values of one name x events "
-        "of 1-4 items with repeated variables, conflicting values and None values; one stream per anchored function "
-        "(minimize, minimize_event, simplify, ancestors, ancestral components from sets / from roots, ctf-factor form, "
-        "factors, conversion, factorisation, simplify-then-factorise) plus a malformed stream (names outside the graph, "
-        "Intervention objects, value marks).  A case is non-trivial when the graph has >=3 nodes and a directed edge and "
-        "the argument mentions at least one subscript (for component cases: at least two input sets).")
+RULE = ("structured families first: (1) chains of length 3-4 with every set of shortcut edges and at most one bidirected edge x "
+        "every variable Y_S with S a set of earlier vertices (nested subscripts: one intervened vertex reaches Y only through "
+        "another) through ancestors / minimize / ancestral components / factorisation; (2) a subscript that fixes a direct "
+        "parent to the STARRED value (Y @ +X, X -> Y) through conversion, ctf-factor test, both grouping functions, "
+        "factorisation; (3) conditioned variables (ancestors of a root, the root itself, variables with causally irrelevant "
+        "subscripts, non-ancestors) through get_ancestral_components and its two helpers.  Then random ADMGs (1-6 nodes, "
+        "acyclic; isolated and bidirected-only nodes) x counterfactual variables with 0-3 subscripts drawn from ancestors, "
+        "non-ancestors, the variable itself and (rarely) both values of one name x events of 1-4 items with repeated "
+        "variables, conflicting values and None values; one stream per anchored function (minimize, minimize_event, simplify, "
+        "ancestors, the two merge passes separately and composed, conditioned variables in an ancestral set, ancestral set "
+        "after conditioning, ancestral components, ctf-factor form, factors, conversion, factorisation, "
+        "simplify-then-factorise, the three query classes Lean vs Python) plus a malformed stream (names outside the graph, "
+        "Intervention objects, value marks).  A case is non-trivial when the graph has >=3 nodes and a directed edge and the "
+        "argument mentions at least one subscript (for component cases: at least two input sets).")
 ASSUMPTIONS = [
-    "OPEN simplify_prob / simplify_none_zero (all events): FALSE for the code on events with a self-intervened variable Y_y (open findings simplify-reflexive:prob/none); proved as simplify_prob_partial / simplify_none_zero_partial for every event without a self-intervened variable whose values are values of the variable they are bound to, all compatible functional SCMs, all readings of the value symbols",
-    "OPEN factorisation_den (the factorised sum-product equals P(query)): no theorem; decided by the exact functional-SCM oracle only; FALSE for the code on three syntactic classes of queries (open findings factorisation-value:multi-world / literal-bound / outcome-parent-value); factorisation_shape (D*, ctf-factor forms, grouping by c-components) is proved",
-    "value symbols: '-N' and '+N' are read as two DISTINCT values of N (theorems: for every such reading; oracle: sampled readings); an event value None means 'no constraint'",
+    "OPEN simplify_prob / simplify_none_zero (all events): FALSE for the code on events with a self-intervened variable Y_y (open findings simplify-reflexive:prob/none: y0 and the pinned test test_simplify_y read Y_y as the variable Y, the paper's Algorithm 1 and y0's ID* remove the tautology Y_y = y); proved as simplify_prob_partial / simplify_none_zero_partial for every event without a self-intervened variable whose values are values of the variable they are bound to, all compatible functional SCMs, all readings of the value symbols",
+    "OPEN factorisation_den (the factorised sum-product equals P(query), ALL queries): FALSE for the code on three syntactic classes of queries (open findings factorisation-value:multi-world / literal-bound / outcome-parent-value). PROVED as factorisation_den_partial for every query OUTSIDE the three classes (decidable predicates multiWorld / literalBound / outcomeParentValue of Model/CtfFactor.lean, cross-checked against the Python key functions on every run by the op factorize_classes) that is readable (no self-intervened variable, one value per subscript name), every compatible functional SCM whose pmfs sum to one and whose mechanisms take values below card, every reading of the value symbols; the counterfactual split lemma (independent noise blocks), marginalisation and composition are mechanised, not assumed",
+    "value symbols: '-N' and '+N' are read as two values of N (SIMPLIFY theorems: for every DISTINCT reading; value theorem of the factorisation: for every reading; oracle: sampled distinct readings); an event value None means 'no constraint'",
     "Def. 2.1 is read without the '\\ X' for the variable itself (the text says An(Y_x) 'includes Y itself'); for Y not in X both readings coincide",
-    "Def. 4.2 'not disjoint' is read on graph vertices (two sets containing W_z and W_z' share the vertex W), as in the proof of Lemma A.5 and in y0's docstring",
+    "Def. 4.2 'not disjoint' is read on graph vertices (two sets containing W_z and W_z' share the vertex W), as in the proof of Lemma A.5 and in y0's docstring; X_*(W_t) = V(||X_*|| ∩ An(W_t)) is read as y0's docstring reads it (graph vertices, intersection by == of the variable objects)",
+    "cond_in_ancestral_set_spec: completeness (every minimised conditioned variable that == a member of An(W_t) is found) is proved for subscript lists in the canonical Iv.lt order of the line protocol, in which == of two frozensets is structural equality of the model's lists; soundness is unconditional",
     "is_counterfactual_factor_form: Def. 3.4 asks for subscripts equal to pa_W; y0 accepts supersets of pa_W (the same random variable); theorem factor_form_spec characterises what y0 accepts, the oracle has no opinion on strict supersets",
-    "factorised expression: a '-N' subscript whose name is bound by the enclosing Sum denotes the bound value, every other subscript its literal value; a factor variable that is neither bound nor given a value by the returned event is unconstrained",
-    "semantic theorems are over Spec/Fscm.lean (cf family): finitely many independent exogenous variables, deterministic mechanisms, evaluation along a topological order; the oracle samples binary/ternary variables, one binary latent per bidirected edge, private binary noise",
-    "the two merge passes are modelled as 'unions of connected components of the link graph' (the depth-first traversal order, which depends on Python set iteration, is abstracted); the second pass is modelled under the invariant 'input sets are disjoint on graph vertices', proved for the output of the first pass (mergeCommon_base_disjoint)",
+    "factorised expression (Spec/CtfSem.lean factorisedValue = oracle eval_factorised): a '-N' subscript whose name is bound by the enclosing Sum denotes the bound value, every other subscript its literal value; a factor variable that is neither bound nor given a value by the returned event is unconstrained; Sum ranges over the values below card",
+    "semantic theorems are over Spec/Fscm.lean (cf family): finitely many independent exogenous variables, deterministic mechanisms, evaluation along a topological order; Compatible only asks that the mechanisms read parents of G and share noise only across bidirected edges of G; the oracle samples binary/ternary variables, one binary latent per bidirected edge, private binary noise",
+    "the two merge passes are modelled as 'unions of connected components of the link graph' (the depth-first traversal order, which depends on Python set iteration, is abstracted); the second pass is modelled under the invariant 'input sets are non-empty and disjoint on graph vertices', proved for the output of the first pass (mergeCommon_base_disjoint) and imposed on the generator of the stand-alone op merge_bidirected (other inputs are compared as 'unspecified')",
     "Product.safe's ordering of the factors and the order of the returned event are compared as multisets (ordering is property C11's business)",
     "SIMPLIFY's TypeError on events that mix None with self-intervened variables is treated as a documented input rejection (no opinion); exceptions on names outside the graph are compared by category only",
-    "generated graphs are acyclic ADMGs (the property quantifies over ADMGs); cyclic graphs are not explored",
+    "generated graphs are acyclic ADMGs (the property quantifies over ADMGs); cyclic graphs are not explored (the value theorem itself does not assume acyclicity of G: a self-loop on a member of An(Y_*) makes get_counterfactual_factors reject the query)",
 ]
 EXHAUSTIVE = {"quick": False, "thorough": False}
-LEANCHECK_MODULES = ["Y0.Model.Ctf", "Y0.Model.CtfSimplify", "Y0.Model.CtfFactor", "Y0.Props.C19"]
+LEANCHECK_MODULES = ["Y0.Model.Ctf", "Y0.Model.CtfSimplify", "Y0.Model.CtfFactor", "Y0.Spec.CtfSem", "Y0.Props.C19"]
 
 OPS = ["minimize", "minimize_event", "simplify", "ancestors", "components_from_sets", "ancestral_components",
        "is_factor_form", "factors", "factors_values", "convert", "factorize", "simplify_factorize", "factorize_classes",
@@ -1138,26 +1146,33 @@ def finding_key(case, res):
 
 
 MANIFEST = {
-    "text": ("Partial proof. 27 Lean theorems about executable models of ancestor_utils.py / api.py, tied to the code on every run "
+    "text": ("Partial proof. 38 Lean theorems about executable models of ancestor_utils.py / api.py, tied to the code on every run "
              "by differential correspondence (0 disagreements): minimisation is total on graph variables (F8a fixed), well formed, "
              "equal to the published ||Y_x||, idempotent, and the SAME RANDOM VARIABLE in every compatible functional SCM, for "
              "every reading of the value symbols, at every noise point (minimize_same_rv); counterfactual ancestors are exactly "
-             "Def. 2.1 (sound, complete, total); ancestral components are exactly the finest partition of Def. 4.2 (F8b fixed; "
-             "ancestral_components_spec); ctf-factor form / conversion meet Def. 3.4; the factorisation has the shape of "
-             "Eq. 11-15 (factorisation_shape). SIMPLIFY preserves probability and answers None only for probability 0: proved "
-             "for all events WITHOUT a self-intervened variable (simplify_prob_partial, simplify_none_zero_partial); the full "
-             "statement is false for the code (SIMPLIFY rewrites the tautology Y_y=y to Y=y) - open finding, pinned by the "
-             "test-suite. The value clause 'factorised sum-product = P(query)' has NO theorem: it is decided by the exact "
-             "functional-SCM oracle and is false on three syntactic classes of queries (multi-world, captured literal "
-             "subscript, outcome parent with value +P/None) - open findings keyed by class with minimal inputs."),
+             "Def. 2.1 (sound, complete, total); Def. 4.2 in full: each merge pass separately (merge_common_spec, "
+             "merge_bidirected_spec; F8b fixed), the conditioned variables X*(W_t) (cond_in_ancestral_set_spec), and "
+             "get_ancestral_components as a whole (ancestral_components_full: per root An(W_t) in the graph without the edges "
+             "out of X*(W_t), then the finest partition); ctf-factor form / conversion meet Def. 3.4; the factorisation has the "
+             "shape of Eq. 11-15 (factorisation_shape) and its VALUE is P(query) for every query outside three decidable "
+             "syntactic classes (factorisation_den_partial: composition + exclusion restriction along the evaluation order, "
+             "independence of the noise blocks of different c-components, marginalisation - all mechanised). On the three "
+             "classes (multi-world, captured literal subscript, added parent subscript of an outcome with value +P/None) the "
+             "statement is false for the code - open findings keyed by class with minimal inputs; the Lean class predicates are "
+             "cross-checked against the Python key functions on every run. SIMPLIFY preserves probability and answers None only "
+             "for probability 0: proved for all events WITHOUT a self-intervened variable (simplify_prob_partial, "
+             "simplify_none_zero_partial); the full statement is false for the code (SIMPLIFY reads the tautology Y_y=y as Y=y; "
+             "the paper removes it) - open finding, pinned by the test-suite, keyed by syntactic cause + outcome kind + exact "
+             "explanation by the rewrite, so that any other failure on such events is a violation."),
     "note": ("Trusted: Lean kernel; axioms propext/Classical.choice/Quot.sound; the hand-written models; the specifications "
-             "Spec/CtfSpec.lean, Spec/CtfSem.lean and Spec/Fscm.lean (functional SCMs with shared noise, owned by the cf "
-             "family); the correspondence is differential sampling (about 58 000 structured cases per quick run), not proof. "
-             "Readings fixed by the specification: '-N'/'+N' are two distinct values of N; Def. 2.1 without removing Y itself; "
+             "Spec/CtfSpec.lean, Spec/CtfSem.lean (what an event and the returned sum-product denote) and Spec/Fscm.lean "
+             "(functional SCMs with shared noise, owned by the cf family); the correspondence is differential sampling (about "
+             "45 000 cases per quick run, 4 000 of them structured), not proof. "
+             "Readings fixed by the specification: '-N'/'+N' are two values of N; Def. 2.1 without removing Y itself; "
              "Def. 4.2 'not disjoint' on graph vertices; a '-N' subscript bound by the enclosing Sum denotes the bound value. "
              "Known findings of the semantic clauses are grouped by a syntactic cause computed from the input; a failing input "
              "outside the listed causes is reported as a VIOLATION."),
     "technique": ("Lean 4 theorems (closure = ReflTransGen, connected components of link graphs, induction along the SCM "
-                  "evaluation order, dictionary invariants) about executable models + differential correspondence with the "
-                  "real functions + set-theoretic and exact functional-SCM oracles"),
+                  "evaluation order, product structure of the noise space, dictionary invariants) about executable models + "
+                  "differential correspondence with the real functions + set-theoretic and exact functional-SCM oracles"),
 }
